@@ -6,7 +6,7 @@ from fractions import Fraction
 
 import numpy as _np
 
-from . import core, lift, symnp, symspecial
+from . import core, lift, symnp, symspecial, symio
 from .core import Sx, NotEncodable
 
 
@@ -273,7 +273,7 @@ def symbolic_helpers():
         '__vf__': vf, '__vc__': vc, '__vdiv__': vdiv, '__vpow__': vpow, '__vidiv__': vidiv, '__vipow__': vipow,
         '__vint__': vint, '__vfloat__': vfloat, '__vround__': vround, '__vcomplex__': vcomplex,
         '__visinstance__': visinstance, '__vmath__': _VMath(), '__vtruenp__': symnp,
-        '__vspecial__': symspecial,
+        '__vspecial__': symspecial, '__vgetitem__': __import__('operator').getitem, '__vopen__': symio.vopen,
     }
 
 
